@@ -766,9 +766,11 @@ def check_unit(ast, unit, registry, wd, variant=None):
         # group trivially cheap classes together, one query each for contract obligations
         heavy = [p['name'] for p in props if re.search(r'postcondition|precondition|loop_invariant|loop_decreases|loop_step|assertion', p['name'])]
         light = [p['name'] for p in props if p['name'] not in heavy]
-        groups = [[h] for h in heavy]
+        # the generated safety checks first (cheap, and where an out-of-bounds access shows), then one query per contract obligation
+        groups = []
         for i in range(0, len(light), 60):
             groups.append(light[i:i + 60])
+        groups += [[h] for h in heavy]
         gave_up = threading.Event()
         def one(g):
             if gave_up.is_set():
